@@ -3,6 +3,8 @@ package main
 import (
 	"fmt"
 	"math/rand"
+	"os"
+	"strconv"
 	"strings"
 
 	"verif/engine"
@@ -11,6 +13,14 @@ import (
 // evalDocCfgs returns the document bound of a path and successively narrower
 // fallbacks used when the path budget of the tier is exceeded.
 func evalDocCfgs(p Path, tier string, number bool) []*engine.DocCfg {
+	cfgs := evalDocCfgs0(p, tier, number)
+	for _, c := range cfgs {
+		c.NumOverflow = number
+	}
+	return cfgs
+}
+
+func evalDocCfgs0(p Path, tier string, number bool) []*engine.DocCfg {
 	depth := p.Depth
 	if depth > 3 {
 		depth = 3
@@ -69,7 +79,7 @@ func evalDocCfgs(p Path, tier string, number bool) []*engine.DocCfg {
 
 func evalBudget(tier string) int {
 	if tier == "thorough" {
-		return 60000
+		return 20000
 	}
 	return 5000
 }
@@ -147,12 +157,26 @@ func pathsWith(ps []Path, pred func(Path) bool) []Path {
 
 func nSteps(p Path) int { return len(p.Steps) }
 
+// tierN picks a sample size. The thorough sizes written at the call sites are
+// what the corpus could supply; they are capped at VERIF_THOROUGH_SCALE (default
+// 3) times the quick size, the largest scale whose full thorough pass was run
+// clean on the unchanged tree in the time available (DESIGN.md 11.7).
 func tierN(tier string, quick, thorough int) int {
 	if tier == "thorough" {
+		if quick >= 10 && thorough > thoroughScale*quick {
+			return thoroughScale * quick
+		}
 		return thorough
 	}
 	return quick
 }
+
+var thoroughScale = func() int {
+	if v, err := strconv.Atoi(os.Getenv("VERIF_THOROUGH_SCALE")); err == nil && v >= 1 {
+		return v
+	}
+	return 3
+}()
 
 func init() {
 	evalStubs := append([]string{"user functions: harness closures that log their argument and return an injective wrapper (f, g, agg, agh), or fail (fail, failnum on float64, aggfail)"}, commonStubs...)
@@ -174,6 +198,7 @@ func init() {
 			// json.Number decoding on a sample
 			jobs = append(jobs, evalJobs("c01n", samplePaths(ps, tierN(tier, 150, 2000), rng), "C01", tier, false, true)...)
 			jobs = append(jobs, wideDocJobs("c01wide", tier, rng)...)
+			jobs = append(jobs, longArrayJobs("c01long", "C01", "")...)
 			return jobs
 		},
 		Bounds:       evalBounds,
@@ -217,9 +242,10 @@ func init() {
 			sp := stepPaths(tier, rng)
 			one := pathsWith(sp, func(p Path) bool { return nSteps(p) <= 1 })
 			two := samplePaths(pathsWith(sp, func(p Path) bool { return nSteps(p) == 2 }), tierN(tier, 150, 600), rng)
-			fn := samplePaths(funcPaths(tier, rng), tierN(tier, 80, 1000), rng)
+			fn := append(funcPathsCore(tier), samplePaths(funcPaths(tier, rng), tierN(tier, 80, 1000), rng)...)
 			ps := dedupPaths(append(append(append(append(fl, one...), two...), fn...), literalPaths()...))
 			jobs := evalJobs("c04", ps, "C04", tier, false, false)
+			jobs = append(jobs, longArrayJobs("c04long", "C04,C03", "")...)
 			// json.Number decoding (conversions must not be written back into the document)
 			jobs = append(jobs, evalJobs("c04n", samplePaths(ps, tierN(tier, 400, 3000), rng), "C04", tier, false, true)...)
 			// accessor mode without Set
@@ -305,4 +331,24 @@ func init() {
 		Assumptions:  append([]string{"step texts are those the grammar captures for a step as written (`.a`, the whole bracket, `..` and the bare selector after it, `.f()`)", "for `..X` with no container X applies to, 'member did not exist (path=..)' is admissible"}, commonAssumptions...),
 		ExpectLabels: []string{"error-names-a-deepest-real-failure", "spec-has-a-failure", "single-valued-path-has-one-candidate"},
 	})
+}
+
+// longArrayJobs: the union corpus on arrays of 0..5 scalar elements (root
+// array, or the array under key a of a root object).
+func longArrayJobs(prefix, checks, config string) []*engine.Job {
+	var jobs []*engine.Job
+	for i, p := range unionPaths() {
+		var cfg *engine.DocCfg
+		if strings.HasPrefix(p.Text, "$.a") {
+			cfg = docCfg(2, 5, []string{"a"}, engine.KNil|engine.KFloat|engine.KString)
+			cfg.RootKinds = engine.KMap
+		} else {
+			cfg = docCfg(1, 5, []string{"a"}, engine.KNil|engine.KFloat|engine.KString)
+			cfg.RootKinds = engine.KArray
+		}
+		jobs = append(jobs, &engine.Job{ID: fmt.Sprintf("%s-%d", prefix, i), Harness: "zzH_Eval",
+			Params: map[string]string{"path": p.Text, "ast": p.Ast, "holes": "", "config": config, "checks": checks, "infilter": "0"},
+			Docs:   map[string]*engine.DocCfg{"doc": cfg}})
+	}
+	return jobs
 }
